@@ -213,6 +213,11 @@ SignersUse ==
 DirectRemove(i) == /\ "dremove" \in Ops /\ ~ulocked /\ i \in under /\ under' = under \ {i}
                    /\ Un(<<ulocked, upass, mem, cache, locked, noUp, now, dead, forever>>)
                    /\ Lbl("dremove", i, OK)
+\* an identity (possibly a certificate issued on a key type the shim's own Add cannot carry, e.g. a FIDO security key)
+\* is loaded into the underlying agent behind the shim's back
+DirectAdd(i) == /\ "dadd" \in Ops /\ ~ulocked /\ i \notin under /\ under' = under \cup {i}
+                /\ Un(<<ulocked, upass, mem, cache, locked, noUp, now, dead, forever>>)
+                /\ Lbl("dadd", i, OK)
 DirectLock   == /\ "dlock" \in Ops /\ ~ulocked /\ ulocked' = TRUE /\ upass' = "other"
                 /\ Un(<<under, mem, cache, locked, noUp, now, dead, forever>>) /\ Lbl("dlock", "", OK)
 \* assumption: nobody unlocks the underlying agent directly while the shim holds it locked
@@ -301,7 +306,7 @@ NextOps == \/ Extension
            \/ \E k \in Keys : AddHardKey(k)
            \/ \E p \in Pass : Lock(p) \/ Unlock(p)
            \/ \E q \in {"ext", "list"} : Forward(q)
-NextEnv == \/ Tick \/ DirectLock \/ DirectUnlock \/ \E i \in Ids : DirectRemove(i)
+NextEnv == \/ Tick \/ DirectLock \/ DirectUnlock \/ \E i \in Ids : DirectRemove(i) \/ DirectAdd(i)
 NextFault == \E op \in Ops, kind \in FaultKinds, h \in {"list", "sign", "add", "remove", "removeall", "lock", "unlock", "raw"} :
                \E arg \in FaultArgs(op) : FaultStep(op, arg, kind, h)
 Next == NextOps \/ NextEnv \/ NextFault
